@@ -131,6 +131,41 @@ Proof.
   unfold env_in_with. rewrite H3. reflexivity.
 Qed.
 
+(* the three computational side conditions of [env_call_with] that concern the
+   caller's prefix follow from the lookup of the callee in that prefix (checking
+   them by computation is exponential in the caller's position) *)
+Lemma absent_prefix c name : forall fs, absent c fs = true -> absent c (prefix_before name fs) = true.
+Proof.
+  induction fs as [|[n f] t IH]; intros H; cbn [absent prefix_before] in *; [reflexivity|].
+  apply andb_true_iff in H as [H1 H2].
+  destruct (String.eqb n name); [reflexivity|].
+  cbn [absent]. rewrite H1, (IH H2). reflexivity.
+Qed.
+
+Lemma lookup_in_prefix name c : forall fs g,
+  lookup_fn c (prefix_before name fs) = Some g ->
+  lookup_fn c fs = Some g /\
+  prefix_before c (prefix_before name fs) = prefix_before c fs /\
+  (absent c (suffix_after c fs) = true -> absent c (suffix_after c (prefix_before name fs)) = true).
+Proof.
+  induction fs as [|[n f] t IH]; intros g H; cbn [prefix_before lookup_fn] in *; [discriminate|].
+  destruct (String.eqb n name) eqn:E1; [discriminate|].
+  cbn [lookup_fn prefix_before suffix_after] in *.
+  destruct (String.eqb n c) eqn:E2.
+  - split; [exact H|]. split; [reflexivity|]. apply absent_prefix.
+  - destruct (IH g H) as (A & B & C). split; [exact A|]. split; [|exact C].
+    rewrite B. reflexivity.
+Qed.
+
+Lemma env_call_with2 p base name c g :
+  lookup_fn c (prefix_before name (p_fns p)) = Some g ->
+  absent c (suffix_after c (p_fns p)) = true ->
+  forall fuel args, env_in_with p base name fuel c args = call_with p base fuel c args.
+Proof.
+  intros H1 H5. destruct (lookup_in_prefix name c (p_fns p) g H1) as (H2 & H3 & H4).
+  exact (env_call_with p base name c g H1 H2 H3 (H4 H5) H5).
+Qed.
+
 (* a name that is not a function of the program is looked up in the base environment *)
 Lemma env_base p base name ext :
   absent ext (prefix_before name (p_fns p)) = true ->
